@@ -127,6 +127,13 @@ def run(ctx):
             n_q += int(good)
             rep.ob('R17.2', 'setup_new: static key seed and fake key seed are two different draws', good, show(p.value)[:300], w, sn)
             check_distinct(rep, sn, 'setup_new', p, list(seeds) + [v for v in vals.values() if is_rng_draw(v)], w)
+    # every function whose random quantities are judged above was explored completely and returns on some path (a summary without a
+    # returning path would make the loops above vacuous)
+    for sn in ctx.suite_names:
+        for which in ('creg_start', 'clog_start', 'creg_finish', 'slog_start', 'setup_new', 'setup_new_with_key'):
+            s = api_summary(ctx, sn, which)
+            rep.ob('R17.0', '%s explored completely, with a returning path' % which, s.complete and bool(s.ok_paths),
+                   'paths %d ok %d notes %s' % (len(s.paths), len(s.ok_paths), s.notes[:2]), where_of(s), sn)
     ns = len(ctx.suite_names)
     # per suite: 1 + 3 + 8 + (8*3 + 4) + 2 + 2 (external key) + 1
     rep.floor('R17.2', 'random quantities established', n_q, ns * 42)
